@@ -1,5 +1,7 @@
 import Driver.C20
 import Driver.C08
+import Driver.C07
+import Driver.Wire
 
 def dispatch (line : String) : String :=
   let toks := (line.trimAscii.toString.splitOn " ").filter (· ≠ "")
@@ -8,6 +10,8 @@ def dispatch (line : String) : String :=
   | op :: _ =>
     if op.startsWith "c20." then Driver.C20.handle toks
     else if op.startsWith "c08." then Driver.C08.handle toks
+    else if op.startsWith "c07." then Driver.C07.handle toks
+    else if op.startsWith "w." then Driver.Wire.handle toks
     else "bad-op"
 
 partial def loop (h : IO.FS.Stream) (out : IO.FS.Stream) : IO Unit := do
